@@ -2,7 +2,7 @@
    Only ExtrOcamlBasic (bool, option, list, pairs, unit -> OCaml natives);
    Z, positive, N, nat stay extracted datatypes; no Extract Constant. *)
 From Coq Require Import Extraction ExtrOcamlBasic.
-From PV Require Import Base Heap Rng NND Diversify SearchGraph RPTree Search SparseOps.
+From PV Require Import Base Heap Rng NND Diversify SearchGraph RPTree Search SparseOps Metrics.
 Extraction Language OCaml.
 Set Extraction KeepSingleton.
 Extraction "../ocaml/model.ml"
@@ -19,4 +19,6 @@ Extraction "../ocaml/model.ml"
   SearchGraph.degree_prune_row SearchGraph.search_graph_chk
   RPTree.make_euclidean_tree RPTree.convert_tree_format RPTree.leaf_rows RPTree.flat_chk RPTree.linked_chk RPTree.descend
   Search.search_one Search.translate Search.fmul32
-  SparseOps.sparse_sum SparseOps.sparse_diff SparseOps.sparse_mul SparseOps.sparse_dot_product SparseOps.fast_intersection_size.
+  SparseOps.sparse_sum SparseOps.sparse_diff SparseOps.sparse_mul SparseOps.sparse_dot_product SparseOps.fast_intersection_size
+  Metrics.counts Metrics.m_hamming Metrics.m_matching Metrics.m_jaccard Metrics.m_dice Metrics.m_kulsinski
+  Metrics.m_rogerstanimoto Metrics.m_sokalmichener Metrics.m_russellrao Metrics.m_sokalsneath Metrics.m_yule.
